@@ -289,3 +289,37 @@ define void @f() !\33d.x !0 {
 !\30x10 = !{!0, !1}
 !0 = !{!"a"}
 !1 = !{!"b"}
+;;; ATOM md/distinct-empty-tuples
+define void @f(i32* %p) {
+  %v = load i32, i32* %p, !llvm.access.group !0
+  store i32 %v, i32* %p, !llvm.access.group !1
+  ret void
+}
+!named = !{!0, !1, !2, !3}
+!0 = distinct !{}
+!1 = distinct !{}
+!2 = !{}
+!3 = distinct !{!0, !1}
+;;; ATOM md/diarglist-two-functions
+declare void @llvm.dbg.value(metadata, metadata, metadata)
+define void @f(i32 %a, i32 %b) {
+  call void @llvm.dbg.value(metadata !DIArgList(i32 %a, i32 %b), metadata !5, metadata !DIExpression(DW_OP_LLVM_arg, 0, DW_OP_LLVM_arg, 1, DW_OP_plus)), !dbg !7
+  ret void
+}
+define void @g(i32 %a, i32 %b) {
+  call void @llvm.dbg.value(metadata !DIArgList(i32 %a, i32 %b), metadata !8, metadata !DIExpression(DW_OP_LLVM_arg, 0, DW_OP_LLVM_arg, 1, DW_OP_plus)), !dbg !9
+  ret void
+}
+!llvm.module.flags = !{!0}
+!llvm.dbg.cu = !{!1}
+!0 = !{i32 2, !"Debug Info Version", i32 3}
+!1 = distinct !DICompileUnit(language: DW_LANG_C99, file: !2, producer: "p", isOptimized: false, runtimeVersion: 0, emissionKind: FullDebug)
+!2 = !DIFile(filename: "a.c", directory: "/")
+!3 = !DISubroutineType(types: !{null})
+!4 = distinct !DISubprogram(name: "f", scope: !2, file: !2, line: 1, type: !3, spFlags: DISPFlagDefinition, unit: !1)
+!5 = !DILocalVariable(name: "x", scope: !4, file: !2, line: 1, type: !6)
+!6 = !DIBasicType(name: "int", size: 32, encoding: DW_ATE_signed)
+!7 = !DILocation(line: 1, scope: !4)
+!10 = distinct !DISubprogram(name: "g", scope: !2, file: !2, line: 2, type: !3, spFlags: DISPFlagDefinition, unit: !1)
+!8 = !DILocalVariable(name: "y", scope: !10, file: !2, line: 2, type: !6)
+!9 = !DILocation(line: 2, scope: !10)
